@@ -2175,9 +2175,11 @@ impl Lexer<'_> {
                 if is_valid_unicode_sas_name_start(c) || (!first_token && is_xid_continue(c)) {
                     // A macro string in place of macro identifier
                     // First checkpoint BEFORE consuming! See above why.
-                    // If we do not have a bug, it may not be set yet, so this call
-                    // is safe.
-                    self.checkpoint();
+                    // It may already be set by the previous portion of the
+                    // arg name, e.g. if a macro comment follows it.
+                    if self.checkpoint.is_none() {
+                        self.checkpoint();
+                    }
 
                     // Consume as identifier, no reserved words here,
                     // so we do not need the full lex_identifier logic
